@@ -168,6 +168,35 @@ pub fn parse_bool(s: &str) -> bool {
 }
 pub fn parse_u32(s: &str) -> u32 { s.parse().expect("u32") }
 pub fn parse_dbg(s: &str) -> bool { match s { "dbg" => true, "rel" => false, _ => panic!("bad mode") } }
+/// `true` when a request tagged `dbg`/`rel` is meant for this build; the other build answers `skip`.
+pub fn mode_ok(s: &str) -> bool { parse_dbg(s) == IS_DBG }
+
+/// `ops!(op; recv(0) ; arg-getters ; names…)`: `"name" => recv.name(args…)`
+#[macro_export]
+macro_rules! un_ops {
+    ($op:expr, $x:ident, $($name:ident),* $(,)?) => {
+        match $op { $( stringify!($name) => return Some($x(0).$name().out()), )* _ => {} }
+    };
+}
+#[macro_export]
+macro_rules! bin_ops {
+    ($op:expr, $x:ident, $y:ident, $($name:ident),* $(,)?) => {
+        match $op { $( stringify!($name) => return Some($x(0).$name($y(1)).out()), )* _ => {} }
+    };
+}
+/// like `un_ops!` / `bin_ops!` for requests `op cfg dbg|rel a [b]` (mode-dependent bodies)
+#[macro_export]
+macro_rules! un_ops_mode {
+    ($op:expr, $a:ident, $x:ident, $($name:ident),* $(,)?) => {
+        match $op { $( stringify!($name) => { if !mode_ok($a[0]) { return Some("skip".into()); } return Some($x(1).$name().out()) }, )* _ => {} }
+    };
+}
+#[macro_export]
+macro_rules! bin_ops_mode {
+    ($op:expr, $a:ident, $x:ident, $y:ident, $($name:ident),* $(,)?) => {
+        match $op { $( stringify!($name) => { if !mode_ok($a[0]) { return Some("skip".into()); } return Some($x(1).$name($y(2)).out()) }, )* _ => {} }
+    };
+}
 
 /// Which build this binary is (debug assertions on?)
 pub const IS_DBG: bool = cfg!(debug_assertions);
